@@ -4,6 +4,7 @@ From HTA.lib Require Import Base Sweep.
 From HTA.model Require Import C14_Model.
 From HTA.gen Require Import KernelRules_gen LaunchNames_gen.
 From HTA.proof Require Import KernelRulesTie C14_Proofs.
+From HTA.proof Require Import Scale C14_Scale.
 Open Scope list_scope.
 Open Scope Z_scope.
 
@@ -95,3 +96,12 @@ Print Assumptions C14_memory_types_follow_source.
 Theorem C14_launch_names_follow_source : launch_names = launch_names_gen /\ (forall e, is_launch e = str_in (name e) launch_names_gen && (0 <? icorr e)).
 Proof. split; [exact launch_names_are_generated | intro e; unfold is_launch; rewrite launch_names_are_generated; reflexivity]. Qed.
 Print Assumptions C14_launch_names_follow_source.
+
+(* resolution independence of the queue-length series: times multiplied by k > 0 give the same rows in the same order with the
+   same counts, at k times the instants; the set of streams is unchanged.  (The bandwidth series is not homogeneous: the 1 us floor
+   of zero-length copies is an absolute constant, see C14_Scale.v.) *)
+Theorem C14_queue_resolution_independent : forall k l s, 0 < k ->
+  stream_series (scale_evs k l) s = map (fun p => (sq k (fst p), snd p)) (stream_series l s) /\
+  streams_of (scale_evs k l) = streams_of l.
+Proof. intros k l s Hk. split; [apply C14_queue_scale; exact Hk | apply C14_streams_scale]. Qed.
+Print Assumptions C14_queue_resolution_independent.
